@@ -24,7 +24,7 @@ from mc.models import ini
 ID = "C08"
 LEVEL = "model_checking"
 REQUIRED_OUTCOMES = ["perm:identical", "setorder:identical", "setorder:on-load:identical", "hashseed:identical",
-                     "repeat:identical", "lint:json", "lint:ini-sorted", "caller-order:kept", "reloaded-vs-scratch:identical", "sparse:stable"]
+                     "repeat:identical", "lint:json", "lint:ini-sorted", "caller-order:kept", "reloaded-vs-scratch:identical", "written-vs-scratch:identical", "sparse:stable"]
 
 
 # ---- owning set iteration order ------------------------------------------------------------------
@@ -404,8 +404,9 @@ def eval_lint(ref):
     return {"problems": problems, "caller_order_checked": bool(order)}
 
 
-def eval_cross(fmt, seed, edit):
-    """bytes(build(spec + edit)) == bytes(reload(build(spec)) + edit)"""
+def eval_cross(fmt, seed, edit, live=False):
+    """bytes(build(spec + edit)) == bytes(reload(build(spec)) + edit);  live: == bytes(build(spec), written twice and
+    validated, + edit on that same object)"""
     mod = {"ci": CI, "im": IM, "ti": TI}[fmt]
     spec = dict(mod.SEEDS)[seed]()
     after = mod.apply_spec(spec, edit)
@@ -413,8 +414,15 @@ def eval_cross(fmt, seed, edit):
     a = call(lambda: d(mod.build(after)))
     if a[0] != "ok":
         return {"scratch": a[1]}
-    obj = new_like(fmt)
-    obj.loads(d(mod.build(spec)))
+    if live:
+        obj = mod.build(spec)
+        if call(lambda: (d(obj), obj.validate(), d(obj)))[0] != "ok":
+            return {"scratch": "the state before the edit cannot be written"}
+        if fmt == "im" and edit[0] == "hdr":
+            return {"scratch": "header edits are made before the first write"}
+    else:
+        obj = new_like(fmt)
+        obj.loads(d(mod.build(spec)))
     try:
         if fmt == "ci":
             mod.apply_obj(obj, edit, after)
@@ -587,17 +595,20 @@ def run_unit(unit, acc):
         mod = {"ci": CI, "im": IM, "ti": TI}[fmt]
         spec = dict(mod.SEEDS)[name]()
         for e in mod.edits(spec):
-            o = eval_cross(fmt, name, e)
+          for live in (False, True):
+            o = eval_cross(fmt, name, e, live)
             acc.ev()
             acc.trans()
             if o["scratch"] != "ok":
                 continue
+            how = "an object that had been written before the edit" if live else "a re-loaded object"
             if not o["identical"]:
-                acc.violation("reloaded-vs-scratch:%s:%s" % (fmt, e[0]), {"kind": "cross", "fmt": fmt, "seed": name, "edit": e}, o,
-                              "%s %s + %s: the same content reached through a re-loaded object dumps to different bytes than built from scratch (%s)"
-                              % (fmt, name, e, o["reloaded_error"] or "different text"))
+                acc.violation("%s-vs-scratch:%s:%s" % ("written" if live else "reloaded", fmt, e[0]),
+                              {"kind": "cross", "fmt": fmt, "seed": name, "edit": e, "live": live}, o,
+                              "%s %s + %s: the same content reached through %s dumps to different bytes than built from scratch (%s)"
+                              % (fmt, name, e, how, o["reloaded_error"] or "different text"))
             else:
-                acc.outcome("reloaded-vs-scratch:identical")
+                acc.outcome("written-vs-scratch:identical" if live else "reloaded-vs-scratch:identical")
 
 
 def replay(case):
@@ -614,7 +625,7 @@ def replay(case):
         o = eval_sparse(case["ref"], which=case["path"])
         return {kind: o[kind] for kind in ("unstable", "not_fixed_point") if o[kind]}
     if k == "cross":
-        return eval_cross(case["fmt"], case["seed"], case["edit"])
+        return eval_cross(case["fmt"], case["seed"], case["edit"], case.get("live", False))
     return eval_hashseed(case["seed"])
 
 
